@@ -39,6 +39,7 @@ func (reg *Reg) BlobDelete(ctx context.Context, r ref.Ref, d descriptor.Descript
 		Method:     "DELETE",
 		Repository: r.Repository,
 		Path:       "blobs/" + d.Digest.String(),
+		NoMirrors:  true,
 	}
 	resp, err := reg.reghttp.Do(ctx, req)
 	if err != nil {
